@@ -119,3 +119,21 @@ func bAnd(a, b bool) bool     { return a && b }
 func bImplies(a, b bool) bool { return !a || b }
 
 func symKey(x uint64) string { return fmt.Sprint(x) }
+
+// crash injection is only available under gosym
+func runUntilCrash(f func()) bool { f(); return false }
+func crashNow()                   { panic("crashNow is not available natively") }
+
+func scratchDir() string {
+	d, err := os.MkdirTemp("", "verif-scratch-")
+	if err != nil {
+		panic(err)
+	}
+	return d
+}
+
+func scratchDone(dir string) {
+	if dir != "" {
+		_ = os.RemoveAll(dir)
+	}
+}
